@@ -14,3 +14,15 @@ def register(claim, na):
         "symbolic execution of matrix factories on sympy symbols + z3 QF_NRA (cvc5 / exact Fourier certificate fall-back)",
         "DESIGN.md §1 E1, §2 C02",
     )
+    claim(
+        "C01", "model_checking",
+        "Bounded symbolic model checking of lifted_matrix / to_unitary / apply / get_wavefunction: generic symbolic gates (every entry "
+        "r+is a pair of real unknowns) of arity 1..3 on every ordered tuple of distinct indices of registers n<=4, circuits of length<=3 "
+        "mixing generic, parametric and constant gates (numpy and sympy lifting paths in one trace), SymbolicSimulator and base-class "
+        "simulators with six native-set variants, MultiPhaseOperation interleaved, and circuit concatenation; each entry identity against "
+        "the verifier's bit-level embedding oracle is decided by z3 for ALL values of the unknowns. Structure (width, length, pool) is the bound.",
+        "Trusted: sympy arithmetic, translator (cross-checked by exact Laurent form; counterexamples replayed on the real code), z3/cvc5. "
+        "MultiPhaseOperation phases and constant-gate lifts are ground (no free variable) and counted apart. Arity-4 only in the thorough tier with a sparse generic gate.",
+        "symbolic execution of the real circuit code on generic sympy gates/states + z3 QF_NRA identity checking against an embedding oracle",
+        "DESIGN.md §1 E1, §2 C01",
+    )
